@@ -18,7 +18,9 @@ RULE = ('OnlineVariance stream: 0-40 samples (quota for 0,1,2,3), 1-7 ranks, sca
         'empty and one-sample ranks; optimizer stream: 2-14 posterior samples of (planet_radius, T, log H2O) on a '
         '5-layer TransmissionModel with an in-memory H2O opacity, 1-7 ranks, distinct weights, EVERY derived parameter the '
         'model offers enabled (logg, avg_T, mu, metallicity, O/H, C/O), a freshly built model in every simulated process, and '
-        'the traces also judged against a second process-local history (samples in reversed order); tied-weights stream '
+        'the traces also judged against a second process-local history (samples in reversed order), EVERY `_std` key compute_error '
+        'returns (the chemistry carries a condensate: condensate_profile_std too) judged element-wise against Variance.splitVariance '
+        'and the two-pass variance of per-sample values read outside compute_error; tied-weights stream '
         '(judged the same way): repeated / zero / all-equal weights on 2-7 ranks; route stream: the concrete optimizers '
         '(Nestle, MultiNest, PolyChord bound to sampler doubles) built by their own constructor or from the keywords of an '
         '[Optimizer] section, sigma_fraction 1 / default / 0.75 / 0.5 / 0.3 / 0.25 / 0.1, 10-30 posterior samples, 1-5 ranks: '
@@ -675,6 +677,7 @@ def eval_opt_case(ctx, c):
     tstd = np.asarray(vals[0]['out']['temp_profile_std'], float).ravel()
     ctx.check_close('generate_profiles temp_profile_std^2 vs Variance.splitVariance', float(tstd[0]) ** 2,
                     mv if mv != 'raises' else float('inf'), small, 1e-7, 1e-9 * 2200.0 ** 2)
+    judge_compute_error(ctx, stream, samples, weights, size, order, vals[0]['out'], small)
     for key, rv in trace_sample_order.items():
         d = m.call('c18.derived', C.N(size), C.L(rv))
         restored = d.list()
@@ -684,6 +687,82 @@ def eval_opt_case(ctx, c):
                         restored, small, 1e-12, 0.0)
         ctx.check_eq('rank-ordered gather of range(rank, n, size) vs Variance.gatherLists (partition size (range n))',
                      [i for r in range(size) for i in range(r, n, size)], gidx, small)
+
+
+# ----------------------------------------------------------------------------- compute_error: every returned key judged
+# compute_error keeps one accumulator per quantity (temperature, active / inactive mixing profiles, the condensate profile
+# when the chemistry reports condensates, native and binned spectrum) and returns one `<quantity>_std` per accumulator.  The
+# property speaks of ALL of them: each returned key is judged, element by element, against the model's pooled variance of
+# the per-sample values of that quantity (Variance.splitVariance, the strided split in broadcast order) and against the
+# two-pass weighted variance of all samples (Variance.twoPassVar).  The per-sample values are read OUTSIDE compute_error, on
+# a freshly built model driven through the same public calls (update_model, model), from the documented source of each key.
+CERR_SOURCES = {
+    'temp_profile_std': lambda m, grid, native, binner: m.temperatureProfile,
+    'active_mix_profile_std': lambda m, grid, native, binner: m.chemistry.activeGasMixProfile,
+    'inactive_mix_profile_std': lambda m, grid, native, binner: m.chemistry.inactiveGasMixProfile,
+    'condensate_profile_std': lambda m, grid, native, binner: m.chemistry.condensateMixProfile,
+    'native_std': lambda m, grid, native, binner: native,
+    'binned_std': lambda m, grid, native, binner: binner.bindown(grid, native)[1],
+}
+
+
+def sample_quantities(samples, weights, keys):
+    """per posterior sample i (posterior order): {key: the value compute_error feeds the accumulator of `key`}"""
+    _MODEL.clear()
+    o = make_optimizer(samples, weights)
+    m, obs = small_model()
+    rec = []
+    for p in samples:
+        o.update_model(p)
+        grid, native, _, _ = m.model(wngrid=obs.wavenumberGrid, cutoff_grid=False)
+        rec.append({k: np.array(CERR_SOURCES[k](m, grid, native, o._binner), float) for k in keys})
+    return rec, bool(len(m.chemistry.condensates) > 0)
+
+
+def judge_compute_error(ctx, stream, samples, weights, size, order, out, small):
+    """`out`: what generate_profiles (compute_error) returned on rank 0 of `size` ranks; `order`: the broadcast order"""
+    keys = sorted(k for k in out if k.endswith('_std'))
+    unknown = [k for k in keys if k not in CERR_SOURCES]
+    if unknown:
+        raise C.InfraError('compute_error returned %r: no per-sample source is known to the harness for it, the key would '
+                           'stay unjudged' % (unknown,))
+    rec, has_cond = sample_quantities(samples, weights, keys)
+    ctx.bucket('cerr:chemistry-with-condensates' if has_cond else 'cerr:chemistry-without-condensates')
+    ctx.bucket('cerr:%s' % ('ranks-with<=1-sample' if len(order) < 2 * size else 'ranks-with>=2-samples'))
+    m = ctx.model()
+    wsb = [weights[i] + 1e-300 for i in order]
+    for key in keys:
+        ctx.bucket('cerr:key:' + key)
+        got_std = np.asarray(out[key], float)
+        vals = np.stack([rec[i][key] for i in order])
+        if got_std.shape != vals.shape[1:]:
+            ctx.violation('compute-error-two-pass:' + key, '%s has shape %r, the per-sample quantity has shape %r'
+                          % (key, got_std.shape, vals.shape[1:]), small)
+            continue
+        flat = vals.reshape(len(order), -1)
+        abs_ = 1e-12 * float(np.max(np.abs(flat))) ** 2 + 1e-300
+        bad = False
+        for e, g in enumerate(got_std.ravel()):
+            xs = flat[:, e]
+            got = float(g) ** 2
+            mv = res_of(m.call('c18.split', C.N(size), C.L(xs), C.L(wsb)))
+            d = m.call('c18.twopass', C.L(xs), C.L(wsb))
+            d.flt()
+            tv = d.flt()
+            if math.isnan(got):
+                # the square root of a variance that rounding made slightly negative: agrees with any variance inside
+                # the absolute floor, and with nothing else
+                got = 0.0 if (mv != 'raises' and abs(mv) <= abs_ and abs(tv) <= abs_) else got
+            ctx.check_close('compute_error %s^2 vs Variance.splitVariance' % key, got,
+                            mv if mv != 'raises' else float('inf'), small, 1e-7, abs_)
+            ctx.disagreements_checked += 1
+            if not bad and not C.close(got, tv, 1e-7, abs_):
+                bad = True
+                ctx.violation('compute-error-two-pass:' + key, '%s of compute_error on %d ranks is not the two-pass weighted '
+                              'standard deviation of the processed samples (per-sample values read from the forward model '
+                              'outside compute_error)' % (key, size), small,
+                              dict(key=key, element=e, std=float(g), two_pass_std=float(np.sqrt(max(tv, 0.0))),
+                                   values=xs, weights=wsb))
 
 
 # ----------------------------------------------------------------------------- stream C: concrete optimizers, sigma_fraction
